@@ -155,6 +155,31 @@ def srf_mesh(ctx, dim):
     ctx.ensure("repeatable-without-nugget", ctx.eq(again, un))
 
 
+@contract(P, "SRF.__call__/store-and-post_process-options-act-independently",
+          params={"store": [True, False, "n"], "post": [True, False]},
+          functions=["field/srf.py:SRF.__call__", "field/base.py:Field.post_field", "field/base.py:Field.get_store_config"],
+          bounded="2 points, 1-D, N = 2 modes")
+def srf_store_post(ctx, store, post):
+    """the value at a location does not depend on the storage option: `store` decides only whether / under which
+    name the result is kept, `post_process` only whether mean (normalizer, trend) are applied"""
+    mod = sym_model(ctx, 1, nugget=False)
+    s = ctx.integer("seed", lo=1, hi=1000)
+    mu = ctx.real("mean", lo=0.5, hi=2.0)
+    ctx.require(ctx.ne(mu, 0))
+    srf = _q(gs.SRF, mod, mean=mu, seed=s, mode_no=2)
+    ref = _q(gs.SRF, mod, mean=0.0, seed=s, mode_no=2)
+    x = [[ctx.real("x0", lo=-2, hi=2), ctx.real("x1", lo=-2, hi=2)]]
+    raw = ref(x, store=False)
+    got = srf(x, store=store, post_process=post)
+    want = raw + mu if post else raw
+    ctx.ensure("returned=raw(+mean-iff-post_process)", ctx.eq(got, want))
+    name = "n" if store == "n" else "field"
+    if store is False:
+        ctx.ensure("nothing-stored", srf.field_names == [])
+    else:
+        ctx.ensure("stored-under-the-requested-name", srf.field_names == [name] and ctx.eq(srf[name], want))
+
+
 @contract(P, "SRF.__call__/independent-of-previously-requested-positions", params={"dim": [1, 2], "mesh": ["unstructured", "structured"]},
           functions=["field/srf.py:SRF.__call__", "field/base.py:Field.pre_pos", "field/base.py:Field.set_pos",
                      "field/base.py:_pos_equal"], bounded="1-2 points per call, N = 2 modes", nsamples=2, search=30)
